@@ -136,7 +136,8 @@ Proof. exact BridgePanic.member_of_struct_missing_field. Qed.
 (* ---------------- 3. where the inner evaluator panics ---------------- *)
 
 (* Every Panic of the inner evaluator starts at a sub-formula s of e whose own operation panics:
-   node_panics s st0 says s is an equality test on uncomparable values, a selector on a struct,
+   node_panics s st0 says s is an equality test on uncomparable values (two arrays, two maps, the
+   same function: uncomparable_cases below), a selector on a struct,
    or a call whose bridge [call_value] panics (its operands having evaluated to values). *)
 Theorem eval_panic_sources : forall hosts off e st,
   fst (eval hosts off e st) = Panic ->
@@ -148,13 +149,48 @@ Theorem node_panics_sound : forall hosts off e st,
   node_panics hosts off e st -> fst (eval hosts off e st) = Panic.
 Proof. exact BridgeSources.node_panics_sound. Qed.
 
-(* operators: only the four equality tests, on arrays, maps and functions *)
+(* operators: only the four equality tests, on [uncomparable] operands: two arrays, two maps,
+   the same host function, the same builtin (see uncomparable_cases) *)
 Theorem binary_op_panic_iff : forall op a b,
   binary_op op a b = Panic <-> is_eq_op op = true /\ uncomparable a b = true.
 Proof. exact BridgePanic.binary_op_panic_iff. Qed.
 
 Theorem iface_eq_panic_iff : forall a b, iface_eq a b = Panic <-> uncomparable a b = true.
 Proof. exact BridgePanic.iface_eq_panic_iff. Qed.
+
+(* [uncomparable] spelled out: exactly when Go's == panics in the model *)
+Theorem uncomparable_cases : forall a b, uncomparable a b = true <->
+  (exists x y, a = VArr x /\ b = VArr y) \/ (exists x y, a = VMap x /\ b = VMap y) \/
+  (exists f, a = VFunc f /\ b = VFunc f) \/
+  (exists m n, a = VBuiltin m /\ b = VBuiltin n /\ bytes_eqb m n = true).
+Proof. exact BridgePanic.uncomparable_cases. Qed.
+
+(* Go's == on two function values that are not known to be the same function, on two times and
+   on two opaque values is NOT modelled: the model answers Unk exactly there *)
+Theorem iface_eq_unk_iff : forall a b, iface_eq a b = Unk <->
+  match a, b with
+  | VFunc f, VFunc g => (f =? g) = false
+  | VBuiltin m, VBuiltin n => bytes_eqb m n = false
+  | VFunc _, VBuiltin _ | VBuiltin _, VFunc _ => True
+  | VTime _, VTime _ | VOpaque _, VOpaque _ => True
+  | _, _ => False
+  end.
+Proof. exact BridgePanic.iface_eq_unk_iff. Qed.
+
+(* comparing a function with itself is an error at the entry: any two operands that evaluate to
+   the same host function or the same builtin, e.g. left == left *)
+Theorem compare_same_function : forall hosts off l op r st v1 st1 v2 st2,
+  (match op with KEqEq | KNe | KEqEqEq | KNeEq => true | _ => false end) = true ->
+  eval hosts off l st = (Ok v1, st1) -> eval hosts off r st1 = (Ok v2, st2) ->
+  (exists f, v1 = VFunc f /\ v2 = VFunc f) \/
+  (exists m n, v1 = VBuiltin m /\ v2 = VBuiltin n /\ bytes_eqb m n = true) ->
+  fst (resolve_entry hosts off (SBin l op r) st) = Err.
+Proof. exact BridgePanic.compare_same_function. Qed.
+
+Theorem compare_same_builtin_example :
+  let e := SBin (SIdent KIdent (str "left")) KEqEq (SIdent KIdent (str "left")) in
+  fst (eval [] 0 e (mkR None [])) = Panic /\ fst (resolve_entry [] 0 e (mkR None [])) = Err.
+Proof. exact BridgePanic.ex_compare_same_builtin. Qed.
 
 Theorem unary_op_never_panics : forall op v, unary_op op v <> Panic.
 Proof. exact BridgePanic.unary_op_no_panic. Qed.
@@ -232,6 +268,10 @@ Print Assumptions eval_panic_sources.
 Print Assumptions node_panics_sound.
 Print Assumptions binary_op_panic_iff.
 Print Assumptions iface_eq_panic_iff.
+Print Assumptions uncomparable_cases.
+Print Assumptions iface_eq_unk_iff.
+Print Assumptions compare_same_function.
+Print Assumptions compare_same_builtin_example.
 Print Assumptions unary_op_never_panics.
 Print Assumptions call_value_panic_iff.
 Print Assumptions conv_args_panic_sources.
